@@ -86,7 +86,7 @@ SPECS += [
             "presence": (f"iff({R('N')} is not None, j >= w)", ["C06", "C09"]),
             "type": (f"implies(j >= w, isfloat({R('N')}))", ["C06", "C09"]),
             "rounded": ROUNDED,
-            "tsi": (f"implies(j >= w and {NUM('A2')} != 0, Abs({NUM('N')} - 100 * {NUM('S2')} / {NUM('A2')}) <= eps)", ["C06"]),
+            "tsi": (f"implies(j >= w and {NUM('A2')} != 0, Abs({NUM('N')} - 100 * ({NUM('S2')} / {NUM('A2')})) <= eps)", ["C06"]),
             "tsi-no-movement": (f"implies(j >= w and {NUM('A2')} == 0, {NUM('N')} == 0)", ["C06"]),
         },
         variants=[{}, {"input_value": "dotted"}],
